@@ -28,6 +28,7 @@ import (
 )
 
 type c11WireRec struct {
+	dial   string // "h|addr" / "s|addr": how the connection that carried the request was dialled
 	tls    bool
 	host   string // Host header / :authority
 	path   string
@@ -45,16 +46,17 @@ type c11WireFarm struct {
 	script []c11Reply
 	recs   []c11WireRec
 	dials  []string
+	conns  map[string]string // client-side address of a connection -> how it was dialled
 }
 
 func newC11WireFarm(t *testing.T, n int) *c11WireFarm {
-	f := &c11WireFarm{}
+	f := &c11WireFarm{conns: map[string]string{}}
 	mk := func(isTLS bool) http.Handler {
 		return http.HandlerFunc(func(w http.ResponseWriter, r *http.Request) {
 			b, _ := io.ReadAll(r.Body)
 			f.mu.Lock()
 			k := len(f.recs)
-			f.recs = append(f.recs, c11WireRec{tls: isTLS, host: r.Host, path: r.URL.Path, method: r.Method, hdr: r.Header.Clone(), body: len(b) > 0})
+			f.recs = append(f.recs, c11WireRec{dial: f.conns[r.RemoteAddr], tls: isTLS, host: r.Host, path: r.URL.Path, method: r.Method, hdr: r.Header.Clone(), body: len(b) > 0})
 			var rp *c11Reply
 			if k < len(f.script) {
 				rp = &f.script[k]
@@ -114,7 +116,13 @@ func (f *c11WireFarm) dial(ctx context.Context, network, addr string) (net.Conn,
 	f.dials = append(f.dials, "h|"+addr)
 	f.mu.Unlock()
 	var d net.Dialer
-	return d.DialContext(ctx, "tcp", f.pick(f.plain, addr))
+	c, err := d.DialContext(ctx, "tcp", f.pick(f.plain, addr))
+	if err == nil {
+		f.mu.Lock()
+		f.conns[c.LocalAddr().String()] = "h|" + addr
+		f.mu.Unlock()
+	}
+	return c, err
 }
 
 func (f *c11WireFarm) dialTLS(ctx context.Context, network, addr string) (net.Conn, error) {
@@ -126,6 +134,9 @@ func (f *c11WireFarm) dialTLS(ctx context.Context, network, addr string) (net.Co
 	if err != nil {
 		return nil, err
 	}
+	f.mu.Lock()
+	f.conns[raw.LocalAddr().String()] = "s|" + addr
+	f.mu.Unlock()
 	tc := tls.Client(raw, &tls.Config{InsecureSkipVerify: true, NextProtos: []string{"h2", "http/1.1"}})
 	if err := tc.HandshakeContext(ctx); err != nil {
 		raw.Close()
@@ -322,29 +333,25 @@ func TestVerif_C11_loopwire(t *testing.T) {
 		}
 		farm.mu.Lock()
 		recs := append([]c11WireRec(nil), farm.recs...)
-		var dials []string
-		for _, d := range farm.dials {
-			// canonicalAddr always writes a port. A dial address with an EMPTY port comes from the HTTP/2
-			// layer only (authorityAddr does not default an empty port, as in x/net): with keep-alives
-			// off an https URL spelled "host:" is dialled a second time under that address. It carries
-			// no request of its own; outside C11 (see notes).
-			if strings.HasSuffix(d, ":") {
-				s.Count("h2-redial-with-empty-port")
-				continue
-			}
-			dials = append(dials, d)
-		}
 		farm.mu.Unlock()
 		enc := make([]string, len(recs))
 		ok, detail := true, ""
-		if len(dials) != len(recs) {
-			ok, detail = false, "dials "+strconv.Itoa(len(dials))+" != requests received "+strconv.Itoa(len(recs))
-		}
 		var seen []c11Seen
 		for k, rec := range recs {
-			sch, addr := "h", "?"
-			if k < len(dials) {
-				sch, addr = dials[k][:1], dials[k][2:]
+			// Each request is attributed to the address its CONNECTION was dialled for (an HTTP/2
+			// connection may carry several requests of a chain, or be left over from an earlier case
+			// for the same authority: dials and requests do not pair up one to one).
+			sch, addr := "?", "?"
+			if len(rec.dial) > 2 {
+				sch, addr = rec.dial[:1], rec.dial[2:]
+			}
+			if strings.HasSuffix(addr, ":") {
+				// canonicalAddr always writes a port; an EMPTY port comes from the HTTP/2 layer only
+				// (authorityAddr does not default it, as in x/net): an https URL spelled "host:" is
+				// dialled again under that address and that connection carries the request. Outside
+				// C11 (see notes); read it as the default port.
+				addr += "443"
+				s.Count("h2-dial-with-empty-port")
 			}
 			if (sch == "s") != rec.tls {
 				ok, detail = false, "request "+strconv.Itoa(k)+" dialled as "+sch+" but served by the other kind of listener"
